@@ -115,3 +115,7 @@ def run(tier, V):
            'samples': [{'lines': c0['lines'][:4], 'keys': c0['keys']}]}
     assumptions = ['reference = model_vi (neatvi dialect as listed in DESIGN.md Appendix A where POSIX is silent)', 'left-to-right text only; marks, searches and section motions are not part of C07']
     return cov, assumptions
+
+
+def REPLAY(w):
+    return run_case((build('asan'), w['index'], c17.Widths(), 'quick'))[:2]
